@@ -63,6 +63,10 @@ package l1infotreesync
 //@   modifies nothing
 //@   ensures[unchanged-means-the-current-leaf-is-that-root] (result1 == nil && !result0) ==> rootLastIdx(p.rollupExitTree.Tree) >= 0 && desc(rhtL(p.rollupExitTree.Tree), rhtR(p.rollupExitTree.Tree), rootHash(p.rollupExitTree.Tree)[rootLastIdx(p.rollupExitTree.Tree)], uint32(event.RollupID - 1), 0) == event.ExitRoot
 //@   ensures[empty-tree-is-new] (result1 == nil && rootLastIdx(p.rollupExitTree.Tree) == -1) ==> result0
+// ... and "new" is answered only for one of the three reasons the code names: no root yet, no leaf stored at that position
+// under the last root, or a leaf that differs (a storage fault is an error, never "new")
+//@   ensures[new-means-empty-tree-absent-leaf-or-different-leaf] (result1 == nil && result0) ==> rootLastIdx(p.rollupExitTree.Tree) == -1 || exists(h, 1, 33, !rhtHas(p.rollupExitTree.Tree)[desc(rhtL(p.rollupExitTree.Tree), rhtR(p.rollupExitTree.Tree), rootHash(p.rollupExitTree.Tree)[rootLastIdx(p.rollupExitTree.Tree)], uint32(event.RollupID - 1), h)]) || desc(rhtL(p.rollupExitTree.Tree), rhtR(p.rollupExitTree.Tree), rootHash(p.rollupExitTree.Tree)[rootLastIdx(p.rollupExitTree.Tree)], uint32(event.RollupID - 1), 0) != event.ExitRoot
+//@   ensures[result-only-without-error] result1 != nil ==> !result0
 
 //@ extern github.com/russross/meddler.Insert@l1infotreesync.(*processor).processVerifyBatches (db, table, src)
 //@   modifies stmtFail
